@@ -324,6 +324,32 @@ pub fn run(thorough: bool) {
             rep.violations.extend(r.cx.violations);
         }
     }
+    // the same probe with both caches reduced to one entry (objects are then read back from the packs through the
+    // recorded offsets instead of being served from memory)
+    if rep.violations.is_empty() {
+        std::env::set_var("MELDA_DATA_CACHE_CAP", "1");
+        std::env::set_var("MELDA_ARRAYDESCRIPTORS_CACHE_CAP", "1");
+        for sc in scenarios(thorough).into_iter().filter(|s| ["pair-conflict", "single-kinds"].contains(&s.name.as_str()) || (thorough && s.name == "pair-arrays")) {
+            let full = full_alphabet(sc.nrep, sc.menu.docs.len());
+            let ex = Explorer {
+                sc: sc.clone(),
+                probes: vec![Arc::new(AllOpsProbe { full, odd_within: None })],
+                limits: Limits { pool_size: 1, time_budget: Duration::from_secs(if thorough { 600 } else { 20 }), max_states: if thorough { 100_000 } else { 3_000 }, ..Default::default() },
+            };
+            let r = ex.run(false);
+            total_states += r.stats.states;
+            total_trans += r.stats.transitions;
+            probe_ops += r.cx.counters.get("probe_ops").copied().unwrap_or(0);
+            let mut sj = stats_json(&r.stats);
+            sj["scenario"] = sc.describe();
+            sj["rayon_pool_size"] = json!(1);
+            sj["cache_capacities"] = json!(1);
+            scs.push(sj);
+            rep.violations.extend(r.cx.violations);
+        }
+        std::env::remove_var("MELDA_DATA_CACHE_CAP");
+        std::env::remove_var("MELDA_ARRAYDESCRIPTORS_CACHE_CAP");
+    }
     rep.set("states", json!(total_states));
     rep.set("transitions", json!(total_trans));
     rep.set("traces_validated_against_impl", json!(total_trans));
